@@ -40,8 +40,10 @@ func init() {
 			{ID: "X3", Floor: 12, Doc: "completeness of the OSM body emitters", Run: c04X3},
 			{ID: "X4", Floor: 4, Doc: "Action marshal/unmarshal symmetry on type, old, new, embedded element", Run: c04X4},
 			{ID: "X5", Floor: 2, Doc: "Date: one layout constant both ways, written and read as text", Run: c04X5},
+			{ID: "X6", Floor: 3, Doc: "marshal helpers skip an element only when the value is absent", Run: c04X6},
 		},
 		Mutants: []core.Mutant{
+			{Name: "x6-skip-block-without-elements", File: "change.go", Find: "func marshalInnerChange(e *xml.Encoder, name string, o *OSM) error {\n\tif o == nil {", Replace: "func marshalInnerChange(e *xml.Encoder, name string, o *OSM) error {\n\tif len(o.Elements()) == 0 {", ExpectRule: "X6", ExpectConstruct: "marshalInnerChange"},
 			{Name: "change-modify-block-renamed", File: "change.go", Find: "marshalInnerChange(e, \"modify\", c.Modify)", Replace: "marshalInnerChange(e, \"modified\", c.Modify)", ExpectRule: "X1", ExpectConstruct: "c.Modify"},
 			{Name: "osm-root-renamed", File: "osm.go", Find: "start.Name.Local = \"osm\"", Replace: "start.Name.Local = \"OSM\"", ExpectRule: "X1", ExpectConstruct: "root@OSM.MarshalXML"},
 			{Name: "discussion-comment-renamed", File: "changeset.go", Find: "t := xml.StartElement{Name: xml.Name{Local: \"comment\"}}", Replace: "t := xml.StartElement{Name: xml.Name{Local: \"comments\"}}", ExpectRule: "X1", ExpectConstruct: "csd.Comments"},
